@@ -140,6 +140,10 @@ type FlakyWrapper struct {
 	encAt     int
 	dec, enc  int
 	delivered int
+	hookAt    int
+	hook      func()
+	// KeyIDFails makes KeyId return an error (Encrypt and Decrypt keep working)
+	KeyIDFails bool
 }
 
 // ErrWrapperDown is what an armed FlakyWrapper returns
@@ -173,9 +177,39 @@ func (f *FlakyWrapper) Decrypt(ctx context.Context, in *wrapping.BlobInfo, opt .
 	return f.Wrapper.Decrypt(ctx, in, opt...)
 }
 
+// ErrNoKeyID is what KeyId returns while KeyIDFails is set
+var ErrNoKeyID = errors.New("injected: not permitted to describe the key")
+
+// KeyId fails while KeyIDFails is set (a principal that may use the key but not look it up)
+func (f *FlakyWrapper) KeyId(ctx context.Context) (string, error) {
+	f.mu.Lock()
+	fail := f.KeyIDFails
+	f.mu.Unlock()
+	if fail {
+		return "", ErrNoKeyID
+	}
+	return f.Wrapper.KeyId(ctx)
+}
+
+// OnEncrypt makes the n-th Encrypt from now on call fn first (e.g. to cancel the caller's context while the key
+// service is busy); the call itself goes through
+func (f *FlakyWrapper) OnEncrypt(n int, fn func()) {
+	f.mu.Lock()
+	f.hookAt, f.hook, f.enc = n, fn, 0
+	f.mu.Unlock()
+}
+
 func (f *FlakyWrapper) Encrypt(ctx context.Context, in []byte, opt ...wrapping.Option) (*wrapping.BlobInfo, error) {
 	f.mu.Lock()
 	f.enc++
+	if f.hook != nil && f.enc == f.hookAt {
+		h := f.hook
+		f.hook = nil
+		f.mu.Unlock()
+		h()
+		f.mu.Lock()
+		f.delivered++
+	}
 	fail := f.encAt > 0 && f.enc == f.encAt
 	if fail {
 		f.delivered++
